@@ -359,7 +359,11 @@ func ruleC06R3(c *Ctx) {
 		broken("C06.R3: the pipeline starter no longer has bufferID / outputTag parameters")
 	}
 	nTag, nID := 0, 0
-	for _, fn := range withAnons(ps) {
+	var psRegion []*ssa.Function
+	for _, g := range c.regionOf(ps) {
+		psRegion = append(psRegion, withAnons(g)...)
+	}
+	for _, fn := range psRegion {
 		for _, site := range callsIn(fn) {
 			if !site.Common().IsInvoke() {
 				continue
@@ -368,11 +372,11 @@ func ruleC06R3(c *Ctx) {
 			case "NewSerializer", "NewChunkMaker":
 				nTag++
 				last := site.Common().Args[len(site.Common().Args)-1]
-				c.check(resolve(last) == tagP || isFreeVarOf(last, tagP), "C06.R3", fn, site.Common().Method.Name()+" receives the pipeline's tag", site.Pos(), "outputTag", "a different tag is given to an output: chunks are delivered under another key set's tag")
+				c.check(resolve(last) == tagP || isFreeVarOf(last, tagP) || c.resolveR(ps, last) == tagP || isFreeVarOf(c.resolveR(ps, last), tagP), "C06.R3", fn, site.Common().Method.Name()+" receives the pipeline's tag", site.Pos(), "outputTag", "a different tag is given to an output: chunks are delivered under another key set's tag")
 			case "NewBufferer":
 				nID++
 				arg := site.Common().Args[1]
-				c.check(resolve(arg) == idP || isFreeVarOf(arg, idP), "C06.R3", fn, "NewBufferer receives the pipeline's queue id", site.Pos(), "bufferID", "a different queue id is given to an output buffer: chunks are queued in another key set's directory")
+				c.check(resolve(arg) == idP || isFreeVarOf(arg, idP) || c.resolveR(ps, arg) == idP || isFreeVarOf(c.resolveR(ps, arg), idP), "C06.R3", fn, "NewBufferer receives the pipeline's queue id", site.Pos(), "bufferID", "a different queue id is given to an output buffer: chunks are queued in another key set's directory")
 			}
 		}
 	}
